@@ -16,7 +16,7 @@ RULE = ("cases are (kind, 32-byte key class, plaintext bytes, method) drawn from
         "through SecureField.to_python); a case is non-trivial when at least one oracle comparison was evaluated; "
         "distinct = distinct case content")
 REQUIRED = ("aes_oracle_decrypts", "aes_library_decrypts_oracle_output", "xor_oracle_checks", "malformed_rejected",
-            "iv_sets_checked", "wrong_key_checks", "stored_secret_shapes_rejected", "sessions_judged")
+            "iv_sets_checked", "wrong_key_checks", "stored_secret_shapes_rejected", "sessions_judged", "provider_objects_judged")
 ASSUMPTIONS = ["the pure-Python AES-256-CBC/PKCS7 oracle (vf/aes_ref.py, self-tested on FIPS-197 C.3 and SP 800-38A "
                "F.2.5/F.2.6) is the 'standard implementation'",
                "base64 text containing characters outside the alphabet is not judged (Python's decoder ignores them)"]
@@ -54,7 +54,7 @@ def _plaintext(rng):
 
 
 def generate(rng, ctx):
-    kind = weighted(rng, [(6, "roundtrip"), (1, "fresh_iv"), (3, "malformed"), (2, "stored"), (2, "session")])
+    kind = weighted(rng, [(6, "roundtrip"), (1, "fresh_iv"), (3, "malformed"), (2, "stored"), (2, "session"), (1.5, "provider")])
     case = {"kind": kind, "key": _key(rng), "pt": _plaintext(rng),
             "method": rng.choice(["aes", "xor", "best"]), "r": rng.getrandbits(32)}
     if kind == "fresh_iv":
@@ -67,7 +67,7 @@ def generate(rng, ctx):
         case["bad_method"] = rng.choice(["rot13", "", "AES", "Xor", "aes ", None, 5, ["aes"], "best2", b"aes"])
     if kind == "stored":
         case["what"] = rng.choice(["int", "list", "bool", "bytes", "float", "no_method", "no_ct", "ct_int", "ct_bytes",
-                                   "ct_none", "bad_pad_b64", "method_int", "method_list", "unknown_method",
+                                   "ct_none", "bad_pad_b64", "missing_pad_b64", "method_int", "method_list", "unknown_method",
                                    "short_ct", "unaligned_ct", "empty_dict", "tuple"])
     return case
 
@@ -178,6 +178,34 @@ def run(case, ctx, res):
             res.viol("M-iv", feat, "all-zero IV")
         res.nontrivial(kind, method, key.hex(), ptb.hex())
 
+    elif kind == "provider":
+        # the provider classes used directly: one object for many values, another object to decrypt
+        enc = cc.encryption
+        n = 16
+        p1, p2 = enc.AesProvider(key), enc.AesProvider(key)
+        cts = [p1.encrypt(ptb) for _ in range(n)]
+        res.count("provider_objects_judged")
+        if len({c[:16] for c in cts}) != n or len(set(cts)) != n:
+            res.viol("M-iv", "provider/aes", "one AesProvider object gave %d distinct IVs / %d distinct ciphertexts for %d encryptions" % (
+                len({c[:16] for c in cts}), len(set(cts)), n))
+            return
+        other = p1.encrypt(ptb[:16] + b"-tail") if len(ptb) >= 16 else None
+        if other is not None and other[16:32] == cts[0][16:32]:
+            res.viol("M-iv", "provider/aes", "two plaintexts with a common first block share their first ciphertext block")
+            return
+        for c in cts[:3]:
+            if p2.decrypt(c) != ptb or aes_ref.aes_decrypt(key, c) != ptb:
+                res.viol("M-aes-standard", "provider/aes", "value of one AesProvider object is not decrypted by another / by the oracle")
+                return
+        res.count("aes_oracle_decrypts", 3)
+        x1, x2 = enc.XorProvider(key), enc.XorProvider(key)
+        cx = x1.encrypt(ptb)
+        res.count("xor_oracle_checks")
+        if cx != aes_ref.xor_stream(key, ptb) or x2.decrypt(cx) != ptb or x1.encrypt(ptb) != cx:
+            res.viol("M-xor", "provider/xor", "XorProvider objects disagree with p[i]^k[i mod 32] for %d bytes" % len(ptb))
+            return
+        res.nontrivial(kind, key.hex(), ptb.hex())
+
     elif kind == "session":
         # several operations inside ONE open key context (nested once): every result is judged
         SV = cc.encryption.SecureValue
@@ -263,6 +291,7 @@ def run(case, ctx, res):
             "ct_int": {"method": sv.method, "ciphertext": 7}, "ct_bytes": {"method": sv.method, "ciphertext": sv.ciphertext},
             "ct_none": {"method": sv.method, "ciphertext": None},
             "bad_pad_b64": {"method": sv.method, "ciphertext": b64.rstrip("=")[: (len(b64.rstrip("=")) // 4) * 4] + "A"},
+            "missing_pad_b64": {"method": sv.method, "ciphertext": b64.rstrip("=")},
             "method_int": {"method": 5, "ciphertext": b64}, "method_list": {"method": ["aes"], "ciphertext": b64},
             "unknown_method": {"method": "rot13", "ciphertext": b64},
             "short_ct": {"method": "aes", "ciphertext": base64.b64encode(sv.ciphertext[:20]).decode()},
@@ -270,6 +299,8 @@ def run(case, ctx, res):
                              if sv.method == "aes" else base64.b64encode(bytes(37)).decode()},
         }[what]
         field = schema.s
+        if what == "missing_pad_b64" and not b64.endswith("="):
+            return  # this ciphertext happens to need no padding
         err, val = _raises(lambda: field.to_python(cfg, doc))
         feat = "stored/" + what
         if not err:
